@@ -45,10 +45,15 @@ PreLine == <<ESC, "[", "1", ";", "3", ";", "3", "1", ";", "4", "8", ";", "5", ";
 -------------------------------------------------------------------------------
 (* case record: the lines, the documented prediction, and - where a named deviation would change it - the          *)
 (* prediction under that deviation *)
-DevLabels == <<"StAsCsi", "SkipEmptyParam">>
-Touches(ls, d) == \E i \in 1..Len(ls) : IF d = "StAsCsi" THEN Contains(ls[i], <<ESC, BSL>>) ELSE Contains(ls[i], <<ESC, "[">>)
-Alts(ls, exp) == LET cand == SelectSeq(DevLabels, LAMBDA d : Touches(ls, d) /\ Predict(ls, Corners \cup {d}) # exp)
-                 IN [i \in 1..Len(cand) |-> [dv |-> cand[i], exp |-> Predict(ls, Corners \cup {cand[i]})]]
+HasStripping(x) == \E i \in 1..Len(x) : x[i] \in Stripping
+Touches(ls, d) == \E i \in 1..Len(ls) : CASE d = "StAsCsi" -> Contains(ls[i], <<ESC, BSL>>)
+                                            [] d = "SkipEmptyParam" -> Contains(ls[i], <<"[", ";">>) \/ Contains(ls[i], <<";", ";">>)
+                                                                       \/ Contains(ls[i], <<";", "m">>)
+                                            [] d = "OpenSpanAtEol" -> HasStripping(ls[i])
+Alts(ls, exp) == LET idx == SelectSeq([i \in 1..Len(DevSets) |-> i],
+                                      LAMBDA i : /\ \A d \in DevSets[i] : Touches(ls, d)
+                                                 /\ Predict(ls, Corners \cup DevSets[i]) # exp)
+                 IN [k \in 1..Len(idx) |-> [dv |-> DevNames[idx[k]], exp |-> Predict(ls, Corners \cup DevSets[idx[k]])]]
 Case(ls) == LET exp == Predict(ls, Corners) IN [lines |-> ls, exp |-> exp, alts |-> Alts(ls, exp)]
 
 -------------------------------------------------------------------------------
@@ -122,26 +127,25 @@ St == <<ESC, BSL>>
 
 GInit == GIdle /\ s = <<>> /\ pre = 0
 
-Put(c, txt) == /\ mode = "top" /\ cur' = cur \o c /\ plain' = plain \o txt
-               /\ UNCHANGED <<done, mode, ng, exotic>>
-GText    == \E t \in Texts : Put(t, t)
-GCtl     == \E c \in Ctls : Put(c, <<>>)
-GStruck  == \E x \in StruckSyms : Put(<<x, BS>>, <<>>)
-GSt      == /\ exotic \in {"none", "st"} /\ mode = "top" /\ cur' = cur \o St /\ exotic' = "st"
+Tick == steps < Depth /\ steps' = steps + 1 /\ UNCHANGED <<s, pre>>
+Same == UNCHANGED <<done, mode, ng, exotic>>
+GText    == \E t \in Texts : Tick /\ mode = "top" /\ cur' = cur \o t /\ plain' = plain \o t /\ Same
+GCtl     == \E c \in Ctls : Tick /\ mode = "top" /\ cur' = cur \o c /\ plain' = plain /\ Same
+GStruck  == \E x \in StruckSyms : Tick /\ mode = "top" /\ cur' = cur \o <<x, BS>> /\ plain' = plain /\ Same
+GSt      == /\ Tick /\ exotic \in {"none", "st"} /\ mode = "top" /\ cur' = cur \o St /\ exotic' = "st"
             /\ UNCHANGED <<done, plain, mode, ng>>
-GSgrOpen == /\ mode = "top" /\ cur' = cur \o <<ESC, "[">> /\ mode' = "sgr" /\ ng' = 0
+GSgrOpen == /\ Tick /\ mode = "top" /\ cur' = cur \o <<ESC, "[">> /\ mode' = "sgr" /\ ng' = 0
             /\ UNCHANGED <<done, plain, exotic>>
-GGroup   == /\ mode = "sgr" /\ ng < 4
+GGroup   == /\ Tick /\ mode = "sgr" /\ ng < 4
             /\ \E g \in Groups : cur' = cur \o (IF ng = 0 THEN <<>> ELSE <<";">>) \o g
             /\ ng' = ng + 1 /\ UNCHANGED <<done, plain, mode, exotic>>
-GEmpty   == /\ mode = "sgr" /\ ng < 4 /\ exotic \in {"none", "empty"}
+GEmpty   == /\ Tick /\ mode = "sgr" /\ ng < 4 /\ exotic \in {"none", "empty"}
             /\ cur' = cur \o (IF ng = 0 THEN <<>> ELSE <<";">>)
             /\ ng' = ng + 1 /\ exotic' = "empty" /\ UNCHANGED <<done, plain, mode>>
-GSgrClose == /\ mode = "sgr" /\ cur' = cur \o <<"m">> /\ mode' = "top" /\ UNCHANGED <<done, plain, ng, exotic>>
-GNewLine == /\ mode = "top" /\ Len(done) < 2 /\ done' = Append(done, cur) /\ cur' = <<>> /\ plain' = <<>>
+GSgrClose == /\ Tick /\ mode = "sgr" /\ cur' = cur \o <<"m">> /\ mode' = "top" /\ UNCHANGED <<done, plain, ng, exotic>>
+GNewLine == /\ Tick /\ mode = "top" /\ Len(done) < 2 /\ done' = Append(done, cur) /\ cur' = <<>> /\ plain' = <<>>
             /\ UNCHANGED <<mode, ng, exotic>>
-GNext == /\ steps < Depth /\ steps' = steps + 1 /\ UNCHANGED <<s, pre>>
-         /\ (GText \/ GCtl \/ GStruck \/ GSt \/ GSgrOpen \/ GGroup \/ GEmpty \/ GSgrClose \/ GNewLine)
+GNext == GText \/ GCtl \/ GStruck \/ GSt \/ GSgrOpen \/ GGroup \/ GEmpty \/ GSgrClose \/ GNewLine
 
 GCur == IF mode = "sgr" THEN cur \o <<"m">> ELSE cur
 GLines == Append(done, GCur)
